@@ -93,6 +93,21 @@ func c14IdkLine(rng *verifRng, auto bool, nops int) string {
 			outs = append(outs, "-|"+c14IdkDump(&idk))
 			continue
 		}
+		if rng.intn(5) == 0 {
+			// time passes without use: the tuple's last use moves into the past (the clock cannot be advanced)
+			k := pool[rng.intn(len(pool))]
+			delta := c14Ages[rng.intn(len(c14Ages)-1)]
+			src, _ := bpv7.NewEndpointID(k.src)
+			tpl := idTuple{source: src, time: bpv7.DtnTime(k.t)}
+			idk.mutex.Lock()
+			if u, ok := idk.used[tpl]; ok {
+				idk.used[tpl] = u - bpv7.DtnTime(delta)
+			}
+			idk.mutex.Unlock()
+			ops = append(ops, fmt.Sprintf("a|%s|%d|%d", k.src, k.t, delta))
+			outs = append(outs, "-|"+c14IdkDump(&idk))
+			continue
+		}
 		k := pool[rng.intn(len(pool))]
 		b, err := c14Bundle(k.src, c14Dest, map[bool]string{true: "epoch", false: "now"}[k.t == 0], time.Now(), uint64(rng.intn(3)), "x")
 		if err != nil {
